@@ -12,7 +12,9 @@ Fixpoint strip_port (l : bytes) : bytes :=     (* strings.SplitN(host, ":", 2)[0
   match l with [] => [] | x :: r => if x =? COLON then [] else x :: strip_port r end.
 Definition ADVANCED_MODE : bytes := [65;68;86;65;78;67;69;68;95;77;79;68;69].   (* "ADVANCED_MODE" *)
 
-Record request := mkReq { q_host : bytes; q_path : bytes; q_method : bytes }.
+(* q_url = false: req.HttpRequest.URL is nil (the path is then "" for the basic table and path conditions fail) *)
+Record request := mkReq { q_host : bytes; q_path : bytes; q_method : bytes; q_url : bool }.
+Definition eff_path (req : request) : bytes := if q_url req then q_path req else [].
 Inductive cresult := COk (cluster : bytes) | CErrNoProductRule | CErrNoMatchRule.
 
 Section Lookup.
@@ -37,7 +39,7 @@ Definition advanced_part (adv : option (list (C * bytes))) (req : request) : cre
   end.
 Definition basic_result (basic : option htrees) (req : request) : option bytes :=
   match basic with
-  | Some t => tree_get t (strip_port (q_host req)) (q_path req)
+  | Some t => tree_get t (strip_port (q_host req)) (eff_path req)
   | None => None
   end.
 Definition lookup_cluster (basic : option htrees) (adv : option (list (C * bytes))) (req : request) : cresult :=
@@ -53,7 +55,7 @@ Definition cond_holds (c : cond) (req : request) : bool :=
   match c with
   | CDefault => true
   | CMethodIn ms => existsb (fun m => bytes_eqb (to_upper m) (to_upper (q_method req))) ms
-  | CPathPrefixIn ps => existsb (fun p => is_prefix p (q_path req)) ps
+  | CPathPrefixIn ps => q_url req && existsb (fun p => is_prefix p (q_path req)) ps    (* PathFetcher fails on a nil URL *)
   end.
 
 (* specification, stated from the documentation: basic table first; a real cluster name there is final;
@@ -71,3 +73,15 @@ Definition spec_cluster {C} (holds : C -> request -> bool) (doc_basic : option b
       end
     end
   else match doc_basic with Some cl => COk cl | None => CErrNoMatchRule end.
+
+(* ---------- the whole route table: one basic tree and one advanced list PER PRODUCT ----------
+   RouteTableConf.BasicRuleTree / AdvancedRuleMap are Go maps keyed by product name; LookupCluster indexes both with
+   req.Route.Product only.  A product entry: (name, basic tree if the product has basic rules, advanced rules if any). *)
+Definition product_entry (C : Type) := (bytes * (option htrees * option (list (C * bytes))))%type.
+Fixpoint find_product {A} (p : bytes) (tbl : list (bytes * A)) : option A :=
+  match tbl with [] => None | (n, x) :: r => if bytes_eqb p n then Some x else find_product p r end.
+Definition lookup_table {C} (holds : C -> request -> bool) (tbl : list (product_entry C)) (p : bytes) (req : request) : cresult :=
+  match find_product p tbl with
+  | Some (basic, adv) => lookup_cluster holds basic adv req
+  | None => lookup_cluster holds None None req          (* unknown product: neither map has the key *)
+  end.
